@@ -88,6 +88,11 @@ FORMS = [  # (template over Q a b c m, python predicate)
     ("abs({Q} - {m}) < {c}", lambda q, a, b, c, m: abs(q - m) < c), ("abs({Q} + {m}) <= {c}", lambda q, a, b, c, m: abs(q + m) <= c),
     ("abs({m} - {Q}) < {c}", lambda q, a, b, c, m: abs(m - q) < c), ("abs({m} + {Q}) < {c}", lambda q, a, b, c, m: abs(m + q) < c),
     ("{c} > abs({Q} - {m})", lambda q, a, b, c, m: c > abs(q - m)),
+    # lower bounds on an absolute value (a = the bound): they bound nothing and must not be turned into |Q| <= a
+    ("abs({Q}) >= {a}", lambda q, a, b, c, m: abs(q) >= a), ("abs({Q}) > {a}", lambda q, a, b, c, m: abs(q) > a),
+    ("{a} <= abs({Q})", lambda q, a, b, c, m: a <= abs(q)), ("{a} < abs({Q} - {m})", lambda q, a, b, c, m: a < abs(q - m)),
+    ("abs({Q} + {m}) >= {a}", lambda q, a, b, c, m: abs(q + m) >= a), ("{a} <= abs({Q}) <= {c}", lambda q, a, b, c, m: a <= abs(q) <= c),
+    ("{c} >= abs({Q} - {m}) > {a}", lambda q, a, b, c, m: c >= abs(q - m) > a),
     ("{Q} < {r}", None),  # r is a random "constant" (a Range bound to a name): must not be matched; not re-evaluated
 ]
 KINDS = ["require {e}", "require[0.5] {e}", "terminate when {e}", "record {e} as rec{i}", "require always {e}"]
@@ -108,7 +113,9 @@ def requirement(t, tag, i, quantity, target, consts, scale, diffs=(0.0,)):
     tmpl, pred = FORMS[fi]
     if quantity == "rh" and "{m}" in tmpl and m:  # |Q - d| < w, written with either sign of the constant
         c, m = w, (-m if "+" in tmpl else m)
-    named =t.draw(4, tag + "named") == 3  # constants through a global name / an expression
+    if "abs" in tmpl and "{a}" in tmpl:  # a lower bound that leaves something feasible
+        a = (0.5 * w if "{m}" in tmpl and m else max(abs(d) - w, 0.05)) if quantity == "rh" else scale * [0.1, 0.3, 0.05][t.draw(3, tag + "labs")]
+    named = t.draw(4, tag + "named") == 3  # constants through a global name / an expression
     val = {n: round(float(v), 6) for n, v in (("a", a), ("b", b), ("c", c), ("m", m))}
 
     def k(name):
@@ -138,18 +145,32 @@ def new_obj(name, **kw):
     return o
 
 
-def sizes(t, tag, o, base=1.0, p=3):
+def sizes(t, tag, o, base=1.0, p=3, flat=0):
+    """Sizes; flat = k: one time in k the height is well below (or above) width and length, so that the planar
+    inradius min(w, l)/2 and the 3D inradius differ."""
     for prop in ("width", "length", "height"):
-        if t.draw(p, tag + prop):
+        if prop == "height" and flat and (f := t.draw(8 * flat, tag + "flat")) >= 8 * flat - 8:
+            o.spec.append(f"with height {dim(t, tag + 'height.', base * (0.25 if f % 8 else 2.5))}")
+        elif prop == "length" and flat == 1 and t.draw(2, tag + "compact"):
+            o.spec.append(f"with length {dim(t, tag + 'length.', base * 0.6)}")  # a compact footprint once it lies on its side
+        elif t.draw(p, tag + prop):
             o.spec.append(f"with {prop} {dim(t, tag + prop + '.', base)}")
 
 
 def facing(t, tag, o, tilt=True):
-    k = t.weighted([3, 3, 2, 2 if tilt else 0], tag + "facing")
+    """Orientation: yaw ranges, and (tilt) pitch / roll as non-zero constants, ranges containing 0, or Options with 0."""
+    k = t.weighted([3, 3, 2, 2 if tilt else 0, 4 if tilt else 0], tag + "facing")
     lo = ANG[t.draw(5, tag + 'f0')] - 0.5
     r = f"Range({num(lo)}, {num(lo + 0.5 + t.draw(4, tag + 'f1'))})"
-    if k:
-        o.spec.append([None, f"facing {r}", f"with yaw {r}", f"facing ({r}, {num(0.1 + 0.2 * t.draw(3, tag + 'pitch'))}, 0)"][k])
+    if k == 4:  # pitch exactly 0 and a roll: a flat box on its side is thinner than its planar inradius
+        roll = ["90 deg", "-90 deg", "Uniform(0, 90 deg)", "Range(1.2, 1.6)", "Range(0, 1.6)", "0.7", "90 deg"][t.draw(7, tag + "roll")]
+        # (`facing (yaw, 0, roll)` makes the pitch a derived random value; only `with roll` leaves it the constant 0)
+        o.spec.append([f"with roll {roll}", f"with yaw {r}, with roll {roll}", f"facing ({r}, 0, {roll})"][t.weighted([3, 3, 1], tag + "rollform")])
+    elif k == 3:
+        pitch = [num(0.1 + 0.2 * t.draw(3, tag + "pitch")), "Range(0, 0.5)", "Uniform(0, 0.4)"][t.weighted([3, 1, 1], tag + "pitchform")]
+        o.spec.append(f"facing ({r}, {pitch}, 0)")
+    elif k:
+        o.spec.append([None, f"facing {r}", f"with yaw {r}"][k])
 
 
 def place(t, tag, o, region_name, ref, flat):
@@ -186,8 +207,8 @@ def gen(t):
             lines.append("workspace = Workspace(cont)")
         for i, nm in enumerate(names):
             o = new_obj(nm, cont=cref, cont_flat=fam == 0)
-            sizes(t, f"o{i}.", o, base=S / (6 if fam == 0 else 8))
-            facing(t, f"o{i}.", o)
+            facing(t, f"o{i}.", o)  # (a rolled object usually gets a height unlike its width: thinner or thicker than its planar inradius)
+            sizes(t, f"o{i}.", o, base=S / (6 if fam == 0 else 8), flat=0 if fam else 1 if any("with roll" in x for x in o.spec) else 3)
             if t.draw(3, f"o{i}.own-base"):  # a base region different from the container
                 c = (0.3 * S * zig(t.draw(5, f"o{i}.bx")), 0.3 * S * zig(t.draw(3, f"o{i}.by")), zc if fam or t.draw(16, f"o{i}.bz") < 15 else 1.0 - zc / 1.5)
                 btxt, bref = (region2d(t, f"B{i}.", c, S * (0.75 + 0.25 * t.draw(4, f"o{i}.bs"))) if fam == 0
@@ -213,15 +234,15 @@ def gen(t):
         if oriented:
             lines.append("union = PolygonalRegion(polygon=union.polygons, orientation=vf)")
         P.fields = {"vf": hs}
-        if t.draw(3, "second-field") == 2:  # other objects may follow another field over the same cells
-            P.fields["vg"] = [[math.pi / 2, 0.0, -math.pi / 4, 2.5][t.draw(4, f"cellg{k}")] for k in range(n)]
+        if t.draw(2, "second-field"):  # other objects may follow another field over the same cells (no cell pairs with itself then)
+            P.fields["vg"] = [[math.pi / 2, 0.0, -math.pi / 4, 2.5, 3.0, -3.0][t.draw(6, f"cellg{k}")] for k in range(n)]
             lines.append('vg = PolygonalVectorField("G", [%s])' % ", ".join(f"[r{k}.polygons, {num(h)}]" for k, h in enumerate(P.fields["vg"])))
         bref = rr.PolyRef([np.array(r, float) for r, _ in P.cells], (0.0, 0.0, 0.0), kind="polygon", desc={"cells": n, "gap": gap})
         for i, nm in enumerate(names):
             o = new_obj(nm, base=bref, spec=["in union"])
             k = t.weighted([10, 1, 1], f"o{i}.align")
             if k == 0:
-                f = "vg" if i and "vg" in P.fields and not oriented and t.draw(2, f"o{i}.vg") else "vf"
+                f = "vg" if i and "vg" in P.fields and not oriented and t.draw(3, f"o{i}.vg") else "vf"
                 o.field = P.fields[f]
                 if not oriented:  # (in an oriented region the heading already follows vf; `facing vf` on top of it is not matched)
                     o.spec.append(f"facing {f}")
